@@ -216,6 +216,21 @@ class MetadataGenerator:
                 return str
         return meta
 
+    @classmethod
+    def _union_members(cls, types):
+        """
+        Members of a union with `Optional[X]` replaced by X and Null. A union found under an Optional contributes
+        its own members: they have to take part in the categorisation below like the direct ones
+        """
+        for item in types:
+            if isinstance(item, DOptional):
+                yield Null
+                item = item.type
+            if isinstance(item, DUnion):
+                yield from cls._union_members(item.types)
+            else:
+                yield item
+
     def _optimize_union(self, t: DUnion):
         # Replace DUnion of 1 element with this element
         # if len(t) == 1:
@@ -227,10 +242,7 @@ class MetadataGenerator:
         list_types: List[DList] = []
         dict_types: List[DDict] = []
         other_types: List[MetaData] = []
-        for item in t.types:
-            if isinstance(item, DOptional):
-                item = item.type
-                other_types.append(Null)
+        for item in self._union_members(t.types):
             if isinstance(item, dict):
                 types_to_merge.append(item)
             elif item in self.str_types_registry or item is str:
